@@ -33,7 +33,17 @@ Check C07_order_independent : forall m s1 s2,
   forallb (accepted m) s1 = true ->
   Permutation (s_out (run_manager m None s1)) (s_out (run_manager m None s2)).
 
+Check C07_answers_independent_of_account_stream : forall m stop script pol1 sched1 pol2 sched2,
+  sorted_by_arrival script = true ->
+  orders_of (merged m stop script pol1 sched1) = orders_of (merged m stop script pol2 sched2) /\
+  Permutation (orders_of (merged m stop script pol1 sched1)) (spec_events m stop script).
+
 (* the definitions the statements rest on, pinned by evaluation *)
+Check eq_refl : acct_events (mkPolicy 5 2 40) [(100, 0); (200, 2); (300, 5)] =
+  [MSnapshot 0; MReconnecting 100; MSnapshot 100; MReconnecting 200; MSnapshot 215;
+   MReconnecting 300; MSnapshot 415].
+Check eq_refl : orders_of [MSnapshot 0; MOrder (mkEv 1 2 7 OutActive 3); MReconnecting 9] = [mkEv 1 2 7 OutActive 3].
+Check eq_refl : notices_of [MSnapshot 0; MOrder (mkEv 1 2 7 OutActive 3); MReconnecting 9] = [9].
 Definition pin_m : mgr := mkMgr 1 [2; 3] 10.
 Check eq_refl : spec_event pin_m (mkReq KOpen 1 2 7 100 (Respond 9 (ROk true))) = [mkEv 1 2 7 OutFullyFilled 109].
 Check eq_refl : spec_event pin_m (mkReq KOpen 1 2 7 100 (Respond 9 (ROk false))) = [mkEv 1 2 7 OutActive 109].
